@@ -131,8 +131,17 @@ func cmdCheck(args []string) int {
 			}
 		}
 	}
+	var structurals []*Structural
+	for _, s := range specs.Structurals {
+		for _, p := range s.Props {
+			if p == *prop {
+				structurals = append(structurals, s)
+				pkgSet[s.Pkg] = true
+			}
+		}
+	}
 	sort.Slice(targets, func(i, j int) bool { return specKey(targets[i].Pkg, targets[i].Name) < specKey(targets[j].Pkg, targets[j].Name) })
-	if len(targets) == 0 && len(lemmas) == 0 {
+	if len(targets) == 0 && len(lemmas) == 0 && len(structurals) == 0 {
 		return engErr("no contracts are tagged with this property")
 	}
 	var patterns []string
@@ -222,6 +231,15 @@ func cmdCheck(args []string) int {
 	}
 	solveAll(items, tmp, timeoutS, 5, *tier == "thorough")
 	solveS := time.Since(t0).Seconds() - loadS - genS
+	// structural (method-set) obligations, decided on go/types
+	for _, s := range structurals {
+		for _, o := range eng.structuralObligations(s) {
+			if *only != "" && !strings.Contains(o.Name, *only) {
+				continue
+			}
+			items = append(items, &solveItem{o: o, idx: len(items)})
+		}
+	}
 
 	// 4. verdicts
 	var kf KnownFindings
